@@ -361,8 +361,8 @@ pub fn codec_families(seed: u64, thorough: bool, out: &mut Shards) {
     }
     // sequences: a failing decompress followed by a succeeding one, large n then small n, and back (state kept between calls)
     {
-        let good512 = verif::compress(&vec![3i16; 512], 625).unwrap();
-        let good8 = verif::compress(&vec![-2i16; 8], 12).unwrap();
+        let good512 = pack_coeffs(&vec![3i16; 512], 625);
+        let good8 = pack_coeffs(&vec![-2i16; 8], 12);
         let mut bad512 = good512.clone();
         bad512[300] = 0;
         bad512[301] = 0;
